@@ -11,4 +11,4 @@ mkdir -p .cache/numba evidence replays
 $PY -c "import hypothesis, emg3d, os; assert os.path.realpath(emg3d.__file__).startswith('/repo/'), emg3d.__file__; print('setup ok: hypothesis', hypothesis.__version__, 'emg3d from', emg3d.__file__)" || exit 1
 # Warm the numba cache for the current tree (kernels are recompiled whenever
 # core.py / maps.py / fields.py change, see vp/runner.py).
-PYTHONPATH=/verif $PY -m vp.runner --warm || exit 1
+PYTHONPATH="$PWD" $PY -m vp.runner --warm || exit 1
